@@ -130,7 +130,12 @@ void check_legal_string (const char *s) {
  */
 char *strput (char *x, char *limit, const char *y) {
 #ifdef HAVE_STPNCPY
-  return stpncpy(x, y, limit - x);
+  /* stpncpy() does not terminate what it had to cut: keep it a string, as the loop below does
+   * (the callers build messages in fixed buffers and hand them to strlen()) */
+  x = stpncpy(x, y, limit - x);
+  if (x == limit)
+    *--x = '\0';
+  return x;
 #else
   while ((*x++ = *y++))
     {
